@@ -54,6 +54,7 @@ GHOST static void gio_fail(const char* kind, const char* fmt, ...) {
   vs_violation(kind, "%s", buf);
 }
 static int io_echopairs;
+static volatile int io_flag[8];
 GHOST static void g_bump(int* c) { (*c)++; }
 // one role (reader or writer of one direction) on an end of stream s is finished; the last one closes the descriptor
 static void role_done(int s, int end, int fd) {
@@ -236,6 +237,36 @@ static int io_do_op(int idx, op_t* op) {
       done += r;
       vs_program_advanced();
     }
+    return 1;
+  }
+  if (!strcmp(op->name, "wrfill")) {
+    // fill the send side of direction a: non-waiting sends until the kernel says it is full (the peer is not reading yet)
+    int s = (op->a >> 1) % NSTR, d = op->a & 1;
+    int fd = wfd(s, d);
+    for (;;) {
+      int len = 4096;
+      fill_pattern(iobuf[idx], s, d, g_written[s][d], len);
+      g_nb_enter(idx);
+      errno = 0;
+      ssize_t r = send(fd, iobuf[idx], (size_t)len, MSG_DONTWAIT);
+      int e = errno;
+      g_nb_exit(idx);
+      if (r < 0) {
+        if (e == EAGAIN || e == EWOULDBLOCK) break;
+        gio_fail("stream_mismatch", "fiber %d: send(MSG_DONTWAIT) on descriptor %d failed: errno %d", idx, fd, e);
+      }
+      g_written[s][d] += r;
+      if (g_written[s][d] > (8 << 20)) gio_fail("engine_limit", "send side of descriptor %d never fills", fd);
+    }
+    return 1;
+  }
+  if (!strcmp(op->name, "setflag")) {
+    io_flag[op->a & 7] = 1;
+    vs_program_advanced();
+    return 1;
+  }
+  if (!strcmp(op->name, "waitflag")) {
+    while (!io_flag[op->a & 7]) fiber_yield();
     return 1;
   }
   if (!strcmp(op->name, "rdeof")) {
